@@ -245,7 +245,7 @@ def gen_cases(ck):
         cases.append(doc_case("boundary", d))
     for note, t in boundary_trees():
         cases.append(tree_case("raw", t, note=note))
-    n_gen = 1100 if quick else 60000
+    n_gen = 800 if quick else 60000
     n_kind = 30 if quick else 1500
     g = gm.Gen(rng)
     for k in gm.KINDS:                      # every kind on its own first
@@ -255,7 +255,7 @@ def gen_cases(ck):
     for _ in range(n_gen):
         cases.append(doc_case("generated", g.doc()))
     # StructReg / Group documents against their desugared twins
-    for _ in range(150 if quick else 8000):
+    for _ in range(120 if quick else 8000):
         g.n = 0
         nodes = [g.node(["struct", "group", "struct", "intreg", "enumeration"]) for _ in range(rng.range(1, 3))]
         for n in nodes:
@@ -271,7 +271,7 @@ def gen_cases(ck):
         cases.append(doc_case("formula", gm.Doc([g.k_formula() if rng.chance(2, 3) else g.k_iswiss()
                                                   for _ in range(rng.range(1, 3))])))
     # mutated documents
-    for _ in range(350 if quick else 20000):
+    for _ in range(250 if quick else 20000):
         d = g.doc([k for k in gm.KINDS])
         root = tree_of_text(d.xml())
         kind, benign = mutate(rng, root)
